@@ -1,4 +1,8 @@
 """Shared builders/extractors for rink values in the mirsym value model."""
+import sys as _sys
+if hasattr(_sys, 'set_int_max_str_digits'):
+    _sys.set_int_max_str_digits(0)      # exact fractions with thousands of digits are ordinary here
+
 from fractions import Fraction
 import z3
 from mirsym.values import *  # noqa
